@@ -128,6 +128,13 @@ def export_case(cls, variant, events, errors, freeze=False):
                  "spden": den, "zeros": zeros, "spz": int(round(sp * den))})
 
 
+class UserScale(L.Layer):
+  """A user-defined layer class, known to the library only through custom_objects."""
+
+  def call(self, x):
+    return x * 0.5
+
+
 def bnfuse_case(rnd, events):
   dw = rnd.random() < 0.4
   usebias = rnd.random() < 0.6
@@ -151,7 +158,17 @@ def bnfuse_case(rnd, events):
   bn = QBatchNormalization(epsilon=EPS, center=center, scale=scale, gamma_quantizer=None if invq else wide, beta_quantizer=betaq,
                            mean_quantizer=wide, variance_quantizer=None,
                            inverse_quantizer="quantized_bits(6,4,1,alpha=1.0)" if invq else None, name="bn")
-  m = tf.keras.Model(i, bn(conv(i)))
+  # a third of the cases: the convolution has a second consumer (skip connection) - the pair is then NOT fusable and
+  # the export must not describe it as fused
+  branch = rnd.random() < 0.33
+  c_out = conv(i)
+  # some models also contain a user-defined layer; the caller then hands its class over in custom_objects
+  user = rnd.random() < 0.35
+  tail = (lambda t: UserScale(name="user")(t)) if user else (lambda t: t)
+  if branch:
+    m = tf.keras.Model(i, L.Concatenate(name="skip")([tail(bn(c_out)), L.Activation("linear", name="side")(c_out)]))
+  else:
+    m = tf.keras.Model(i, tail(bn(c_out)))
   J = np.array([rnd.randint(0, 2) for _ in range(nch)])
   gam = rints(rnd, (nch,), 0, 4, EG) if scale else np.ones((nch,), np.float32)
   beta = rints(rnd, (nch,), -20, 20, EFB) if center else np.zeros((nch,), np.float32)
@@ -168,8 +185,13 @@ def bnfuse_case(rnd, events):
   inv_exact = (gam * 2.0 ** (-J.astype(np.float64))).astype(np.float32)
   qinv = np.asarray(Q.get_quantizer("quantized_bits(6,4,1,alpha=1.0)")(tf.constant(inv_exact))) if invq else inv_exact
   bn_before = [w.copy() for w in bn.get_weights()]
-  d = qutils.model_save_quantized_weights(m)
+  d = qutils.model_save_quantized_weights(m, custom_objects={"UserScale": UserScale}) if user else qutils.model_save_quantized_weights(m)
   ent = d["conv"]
+  if branch:
+    marked = bool(ent.get("enable_bn_fusing")) or "bn_inv" in ent or "fused_bias" in ent or bool(d.get("bn", {}).get("enable_bn_fusing"))
+    events.append({"kind": "bnfuse", "gam": [1], "J": [0], "b": [0], "mean": [0], "beta": [0], "inv": [0], "fb": [0],
+                   "qinv": [0], "bnw_ok": 1, "fusable": 0, "marked": int(marked), "dw": int(dw)})
+    return
   if not ent.get("enable_bn_fusing"):
     events.append({"kind": "bnfuse", "gam": [1], "J": [0], "b": [0], "mean": [0], "beta": [0], "inv": [999], "fb": [0],
                    "qinv": [0], "bnw_ok": 1, "note": "pair not detected"})
@@ -203,7 +225,7 @@ def main():
       export_case(cls, variant, events, errors, freeze)
     except Exception as e:
       errors.append({"k": "exc", "cls": cls, "variant": variant, "freeze": freeze, "exc": repr(e)[:300]})
-  for _ in range(6 if tier == "quick" else 40):
+  for _ in range(8 if tier == "quick" else 40):
     try:
       bnfuse_case(rnd, events)
     except Exception as e:
@@ -211,7 +233,7 @@ def main():
   for ev in events:
     for k, v in (("w1", [[0, 0]]), ("qw", [[0, 0]]), ("hw", [[0, 0]]), ("sg", [[1, 0]]), ("sc", [[1, 0]]), ("qkind", "other"),
                  ("bits", 0), ("kn", 1), ("sgbad", 0), ("int", 0), ("qs", [[1, 0]]), ("indep", 0), ("frozen", 0), ("pred", 1), ("second", 1), ("gam", [0]), ("J", [0]),
-                 ("lossy", 0), ("qinv", [0]), ("bnw_ok", 1), ("spden", 0), ("zeros", 0), ("spz", 0), ("b", [0]), ("mean", [0]), ("beta", [0]), ("inv", [0]), ("fb", [0])):
+                 ("lossy", 0), ("fusable", 1), ("marked", 1), ("qinv", [0]), ("bnw_ok", 1), ("spden", 0), ("zeros", 0), ("spz", 0), ("b", [0]), ("mean", [0]), ("beta", [0]), ("inv", [0]), ("fb", [0])):
       ev.setdefault(k, v)
   write_ndjson("%s.%d.ndjson" % (prefix, shard), events)
   json.dump(errors, open("%s.%d.err.json" % (prefix, shard), "w"))
